@@ -75,6 +75,37 @@ theorem fileTail_sound {img : Img} {secs : List Sec} (hs : ∀ s ∈ secs, s.InR
       cases h
   all_goals cases h
 
+/-- exact success condition of the tail shared by `slice_file` and `read_file` -/
+theorem fileTail_ok_iff (img : Img) (secs : List Sec) (hs : ∀ s ∈ secs, s.InRange) (rva min align : Nat) (r : Ref) :
+    fileTail img secs rva min align = .ok r ↔
+      ∃ s, firstV secs rva = some s ∧ s.prd + s.rs < 4294967296 ∧ s.prd + s.rs ≤ img.bytes.size ∧
+        rva - s.va < s.rs ∧ min ≤ s.rs - (rva - s.va) ∧
+        (img.base + (s.prd + (rva - s.va))) % align = 0 ∧
+        r = ⟨s.prd + (rva - s.va), s.rs - (rva - s.va), align⟩ := by
+  unfold fileTail
+  rw [rangeFile_eq]
+  cases hf : firstV secs rva with
+  | none => simp
+  | some s =>
+    have hsr := hs s (firstV_some hf).1
+    dsimp only
+    constructor
+    · intro h
+      split at h
+      next o l heq =>
+        obtain ⟨h1, h2, h3, h4, rfl, rfl⟩ := (rangeOne_ok_iff hsr ..).1 heq
+        by_cases hal : (img.base + (s.prd + (rva - s.va))) % align = 0
+        · rw [if_pos hal] at h
+          cases h
+          exact ⟨s, rfl, h1, h2, h3, h4, hal, rfl⟩
+        · rw [if_neg hal] at h
+          cases h
+      all_goals cases h
+    · rintro ⟨s', hs', h1, h2, h3, h4, hal, rfl⟩
+      cases hs'
+      rw [(rangeOne_ok_iff hsr ..).2 ⟨h1, h2, h3, h4, rfl, rfl⟩]
+      exact if_pos hal
+
 theorem sliceFile_eq_tail (img : Img) (secs : List Sec) (rva min align : Nat) :
     sliceFile img secs rva min align =
       if rva = 0 then .err .null
@@ -510,6 +541,164 @@ theorem leValue_lt (b : Bytes) : ∀ (size off : Nat), leValue b off size < 256 
     rw [leValue, Nat.pow_succ]
     omega
 
+
+/-! ### the loop of `derva_slice_f` with an index-aware (stateful) predicate -/
+
+theorem sliceFLoopI_succ (b : Bytes) (off blen size : Nat) (stop : Nat → Nat → Bool) (fuel len : Nat) :
+    sliceFLoopI b off blen size stop (fuel + 1) len =
+      if len * size + size > blen then .err .bounds
+      else if stop len (leN b (off + len * size) size) = true then .ok len
+      else sliceFLoopI b off blen size stop fuel (len + 1) := rfl
+
+/-- the stateless loop is the stateful one with a predicate that ignores the call number -/
+theorem sliceFLoop_eq_I (b : Bytes) (off blen size : Nat) (stop : Nat → Bool) :
+    ∀ (fuel len : Nat), sliceFLoop b off blen size stop fuel len =
+      sliceFLoopI b off blen size (fun _ x => stop x) fuel len := by
+  intro fuel
+  induction fuel with
+  | zero => intro len; rfl
+  | succ fuel ih => intro len; rw [sliceFLoop_succ, sliceFLoopI_succ, ih]
+
+theorem sliceFLoopI_ok {b : Bytes} {off blen size : Nat} {stop : Nat → Nat → Bool} :
+    ∀ (fuel len n : Nat), sliceFLoopI b off blen size stop fuel len = .ok n →
+      len ≤ n ∧ (n + 1) * size ≤ blen ∧ stop n (leN b (off + n * size) size) = true ∧
+      ∀ j, len ≤ j → j < n → stop j (leN b (off + j * size) size) = false := by
+  intro fuel
+  induction fuel with
+  | zero => intro len n h; cases h
+  | succ fuel ih =>
+    intro len n h
+    rw [sliceFLoopI_succ] at h
+    by_cases hb : len * size + size > blen
+    · rw [if_pos hb] at h; cases h
+    · rw [if_neg hb] at h
+      by_cases hst : stop len (leN b (off + len * size) size) = true
+      · rw [if_pos hst] at h
+        cases h
+        refine ⟨Nat.le_refl _, ?_, hst, ?_⟩
+        · rw [Nat.succ_mul]; omega
+        · intro j h1 h2; omega
+      · rw [if_neg hst] at h
+        obtain ⟨h1, h2, h3, h4⟩ := ih (len + 1) n h
+        refine ⟨by omega, h2, h3, ?_⟩
+        intro j hj1 hj2
+        by_cases hjl : j = len
+        · subst hjl; simpa using hst
+        · exact h4 j (by omega) hj2
+
+/-- the only error of the loop is `Bounds`, and it means that no call inside the window answered `true` -/
+theorem sliceFLoopI_err {b : Bytes} {off blen size : Nat} {stop : Nat → Nat → Bool} :
+    ∀ (fuel len : Nat) (e : Err), sliceFLoopI b off blen size stop fuel len = .err e →
+      e = .bounds ∧ ∀ j, len ≤ j → (j + 1) * size ≤ blen → stop j (leN b (off + j * size) size) = false := by
+  intro fuel
+  induction fuel with
+  | zero => intro len e h; cases h
+  | succ fuel ih =>
+    intro len e h
+    rw [sliceFLoopI_succ] at h
+    by_cases hb : len * size + size > blen
+    · rw [if_pos hb] at h
+      cases h
+      refine ⟨rfl, ?_⟩
+      intro j hj hfit
+      have hm : (len + 1) * size ≤ (j + 1) * size := Nat.mul_le_mul_right _ (by omega)
+      rw [Nat.succ_mul] at hm
+      omega
+    · rw [if_neg hb] at h
+      by_cases hst : stop len (leN b (off + len * size) size) = true
+      · rw [if_pos hst] at h; cases h
+      · rw [if_neg hst] at h
+        obtain ⟨h1, h2⟩ := ih (len + 1) e h
+        refine ⟨h1, ?_⟩
+        intro j hj hfit
+        by_cases hjl : j = len
+        · subst hjl; simpa using hst
+        · exact h2 j (by omega) hfit
+
+theorem sliceFLoopI_bounds {b : Bytes} {off blen size : Nat} {stop : Nat → Nat → Bool} (hs : 1 ≤ size) :
+    ∀ (fuel len : Nat), blen + 2 ≤ fuel + len → len ≤ blen + 1 →
+      (∀ j, len ≤ j → (j + 1) * size ≤ blen → stop j (leN b (off + j * size) size) = false) →
+      sliceFLoopI b off blen size stop fuel len = .err .bounds := by
+  intro fuel
+  induction fuel with
+  | zero => intro len h1 h2 _; omega
+  | succ fuel ih =>
+    intro len h1 h2 hns
+    rw [sliceFLoopI_succ]
+    by_cases hb : len * size + size > blen
+    · rw [if_pos hb]
+    · rw [if_neg hb]
+      have hle : (len + 1) * size ≤ blen := by rw [Nat.succ_mul]; omega
+      have hle' : len + 1 ≤ (len + 1) * size := Nat.le_mul_of_pos_right _ hs
+      have hst := hns len (Nat.le_refl _) hle
+      rw [if_neg (by simp [hst])]
+      exact ih (len + 1) (by omega) (by omega) (fun j hj => hns j (by omega))
+
+theorem sliceFLoopI_ne_diverge {b : Bytes} {off blen size : Nat} {stop : Nat → Nat → Bool} (hs : 1 ≤ size) :
+    ∀ (fuel len : Nat), blen + 2 ≤ fuel + len → len ≤ blen + 1 →
+      sliceFLoopI b off blen size stop fuel len ≠ .diverge := by
+  intro fuel
+  induction fuel with
+  | zero => intro len h1 h2; omega
+  | succ fuel ih =>
+    intro len h1 h2
+    rw [sliceFLoopI_succ]
+    by_cases hb : len * size + size > blen
+    · rw [if_pos hb]; intro h; cases h
+    · rw [if_neg hb]
+      have hle : (len + 1) * size ≤ blen := by rw [Nat.succ_mul]; omega
+      have hle' : len + 1 ≤ (len + 1) * size := Nat.le_mul_of_pos_right _ hs
+      by_cases hst : stop len (leN b (off + len * size) size) = true
+      · rw [if_pos hst]; intro h; cases h
+      · rw [if_neg hst]
+        exact ih (len + 1) (by omega) (by omega)
+
+/-- completeness: the first call that answers `true` inside the window is found -/
+theorem sliceFLoopI_finds {b : Bytes} {off blen size : Nat} {stop : Nat → Nat → Bool} :
+    ∀ (fuel len n : Nat), len ≤ n → (n + 1) * size ≤ blen → n + 1 ≤ fuel + len →
+      stop n (leN b (off + n * size) size) = true →
+      (∀ j, len ≤ j → j < n → stop j (leN b (off + j * size) size) = false) →
+      sliceFLoopI b off blen size stop fuel len = .ok n := by
+  intro fuel
+  induction fuel with
+  | zero => intro len n h1 _ h3 _ _; omega
+  | succ fuel ih =>
+    intro len n h1 h2 h3 hst hns
+    rw [sliceFLoopI_succ]
+    have hle : (len + 1) * size ≤ (n + 1) * size := Nat.mul_le_mul_right _ (by omega)
+    rw [Nat.succ_mul] at hle
+    rw [if_neg (by omega)]
+    by_cases hln : len = n
+    · subst hln; rw [if_pos hst]
+    · have := hns len (Nat.le_refl _) (by omega)
+      rw [if_neg (by simp [this])]
+      exact ih (len + 1) n (by omega) h2 (by omega) hst (fun j hj1 hj2 => hns j (by omega) hj2)
+
+/-- the loop of the model never answers `panic` / `ub` -/
+theorem sliceFLoopI_shape {b : Bytes} {off blen size : Nat} {stop : Nat → Nat → Bool} :
+    ∀ (fuel len : Nat), (∃ n, sliceFLoopI b off blen size stop fuel len = .ok n) ∨
+      sliceFLoopI b off blen size stop fuel len = .err .bounds ∨
+      sliceFLoopI b off blen size stop fuel len = .diverge := by
+  intro fuel
+  induction fuel with
+  | zero => intro len; exact .inr (.inr rfl)
+  | succ fuel ih =>
+    intro len
+    rw [sliceFLoopI_succ]
+    by_cases hb : len * size + size > blen
+    · rw [if_pos hb]; exact .inr (.inl rfl)
+    · rw [if_neg hb]
+      by_cases hst : stop len (leN b (off + len * size) size) = true
+      · rw [if_pos hst]; exact .inl ⟨_, rfl⟩
+      · rw [if_neg hst]; exact ih (len + 1)
+
+/-- the stateless `dervaSliceF` is the stateful one with a predicate that ignores the call number -/
+theorem View.dervaSliceF_eq_I (v : View) (a : Addr) (size align : Nat) (stop : Nat → Bool) :
+    v.dervaSliceF a size align stop = v.dervaSliceFI a size align (fun _ x => stop x) := by
+  unfold View.dervaSliceF View.dervaSliceFI
+  cases v.at a 0 align with
+  | ok r => dsimp only; rw [sliceFLoop_eq_I]
+  | _ => rfl
 
 /-! ### non-vacuity: a hand-built PE32+ FILE (256 bytes, one section), accepted by the model and by the
 real `pe64::PeFile::from_bytes` / `pelite::PeFile::from_bytes` (checked with the harness) -/
